@@ -288,6 +288,15 @@ impl<const N: usize> Ex<N> {
             if r.len() != items.len() || r.iter().zip(items.iter()).any(|(a, b)| *a != b.addr) {
                 e("range(..) disagrees with iter()".into());
             }
+            // one sub-range per step, chosen from the step index (no PRNG draw)
+            if len > 0 {
+                let a = (self.cur * 7 + 3) % (len + 1);
+                let c = a + (self.cur * 5 + 1) % (len - a + 1);
+                let r: Vec<usize> = b.range(a..c).map(|t| t as *const Tracked as usize).collect();
+                if r.len() != c - a || r.iter().zip(items[a.min(items.len())..].iter()).any(|(p, q)| *p != q.addr) || b.range(a..c).len() != c - a {
+                    e(format!("range({a}..{c}) disagrees with iter() (yields {} items)", r.len()));
+                }
+            }
             let r: Vec<usize> = (&**b).into_iter().map(|t| t as *const Tracked as usize).collect();
             if r.len() != items.len() {
                 e("(&buf).into_iter() disagrees with iter()".into());
@@ -376,9 +385,19 @@ impl<const N: usize> Ex<N> {
         let mut msg: Option<(u32, String)> = None;
         for it in items {
             if it.class != Class::Live {
+                // a destroyed element, or a stale copy of an element that moved elsewhere, is still
+                // reachable through the buffer: "in exactly one place" (C03) is broken as well
+                let led = if matches!(it.class, Class::Dead | Class::Stale) { cls::LEDGER } else { 0 };
                 msg = Some((
-                    cls::GARBAGE | cls::CONTENTS | own,
+                    cls::GARBAGE | cls::CONTENTS | own | led,
                     format!("buffer {} presents a slot that holds no live element (id={} class={:?})", x, it.id, it.class),
+                ));
+                break;
+            }
+            if self.hand.iter().any(|h| h.id == it.id) {
+                msg = Some((
+                    cls::LEDGER | cls::CONTENTS | own,
+                    format!("element id={} is in buffer {} although it was handed to the caller (reachable from two places)", it.id, x),
                 ));
                 break;
             }
@@ -434,7 +453,9 @@ impl<const N: usize> Ex<N> {
     }
 
     /// Conservation: the set of live ids equals model contents ⊎ hand.
-    pub fn check_conservation(&mut self, fam: Option<FaultFamily>) {
+    pub fn check_conservation(&mut self, fam: Option<FaultFamily>, own: u32) {
+        // constructors/conversions (C12) and drain (C09) state 'destroyed exactly once' themselves
+        let own = own & (cls::CTOR | cls::DRAIN);
         let expected = self.models[0].len() + self.models[1].len() + self.hand.len();
         let live = H.with(|h| h.borrow().live);
         if live == expected {
@@ -456,7 +477,7 @@ impl<const N: usize> Ex<N> {
         });
         if !dead_owned.is_empty() {
             let c = match fam {
-                None => cls::LEDGER,
+                None => cls::LEDGER | own,
                 Some(FaultFamily::Drop) => cls::DROP_FAULT,
                 Some(FaultFamily::User) => cls::USER_FAULT,
                 Some(FaultFamily::Forget) => cls::FORGET,
@@ -480,7 +501,7 @@ impl<const N: usize> Ex<N> {
                     self.fail(cls::USER_FAULT, format!("elements {lost:?} were created but are neither in a buffer nor destroyed after the panic (leaked)"));
                 }
                 None => {
-                    self.fail(cls::LEDGER, format!("elements {lost:?} are neither in a buffer, nor with the caller, nor destroyed (leaked)"));
+                    self.fail(cls::LEDGER | own, format!("elements {lost:?} are neither in a buffer, nor with the caller, nor destroyed (leaked)"));
                 }
             }
         }
